@@ -292,6 +292,7 @@ func c07(p *model.Prog, r *report.Result) {
 
 	c07r56(p, r)
 	c07r78(p, r)
+	c07r910(p, r)
 
 	// ---------------------------------------------------------------- R4
 	r.Rule("C07.R4", "nothing that outlives the ingest callbacks keeps a reference into the RTP / PS / AvPacket buffer handed in (Group.OnAvPacket, Group.OnRtpPacket, CustomizePubSessionContext.FeedAvPacket, PsUnpacker.FeedRtpPacket, BaseInSession.handleRtpPacket): queued packets and cached parameter sets are copies")
